@@ -24,6 +24,7 @@ import fakesnow.checks as checks
 import fakesnow.expr as expr
 import fakesnow.info_schema as info_schema
 import fakesnow.transforms as transforms
+import fakesnow.transforms_merge as transforms_merge
 from fakesnow.types import describe_as_result_metadata
 
 if TYPE_CHECKING:
@@ -149,6 +150,14 @@ class FakeSnowflakeCursor:
             for exp in self._transform_explode(expression):
                 transformed = self._transform(exp)
                 self._execute(transformed, params)
+            if isinstance(expression, sqlglot.exp.Merge) and self._arrow_table is not None:
+                # the result has been fetched: don't leave the helper table behind in the session, where it is
+                # visible and shadows a table of that name
+                self._duck_conn.execute(f"DROP TABLE IF EXISTS temp.main.{transforms_merge.MERGE_CANDIDATES}")
+                # description describes the last statement: give it one that no longer needs the helper table
+                counts = self._arrow_table.to_pylist()[0].items()
+                self._last_sql = "SELECT " + ", ".join(f'{int(n or 0)}::HUGEINT AS "{name}"' for name, n in counts)
+                self._last_params = None
 
             if isinstance(expression, sqlglot.exp.Merge) and self._arrow_table is not None:
                 # the status row of MERGE holds the numbers of rows inserted, updated and deleted
